@@ -50,7 +50,7 @@ func freeTCPPort() int {
 	return l.Addr().(*net.TCPAddr).Port
 }
 
-func newSockHost(k *sectest.Key, listen bool, tlsFirst bool) (*sockHost, error) {
+func newSockHost(k *sectest.Key, listen bool, tlsFirst bool, extra ...libp2p.Option) (*sockHost, error) {
 	rm, err := rcmgr.NewResourceManager(rcmgr.NewFixedLimiter(rcmgr.InfiniteLimits), rcmgr.WithConnRateLimiters(&rate.Limiter{}))
 	if err != nil {
 		return nil, err
@@ -69,7 +69,7 @@ func newSockHost(k *sectest.Key, listen bool, tlsFirst bool) (*sockHost, error) 
 	} else {
 		opts = append(opts, libp2p.NoListenAddrs)
 	}
-	h, err := libp2p.New(opts...)
+	h, err := libp2p.New(append(opts, extra...)...)
 	if err != nil {
 		rm.Close()
 		return nil, err
